@@ -159,7 +159,10 @@ tokFilled:
 
 	start.Head = expr
 
-	tok, err = lexer.PeekNextToken(0)
+	// the next token decides between a dotted pair and a list: if the
+	// input so far ends right here, wait for more input rather than
+	// deciding on the end marker (the '\' may be in the next piece).
+	tok, err = parser.ParserPeekNextToken(0)
 	if err != nil {
 		return SexpNull, err
 	}
